@@ -90,7 +90,7 @@ def run_shared(cfg, seed, policy="random", script=(), p_switch=0.3, census=False
     from rpyc.core import async_ as async_mod
     import random
     nclients, modes, with_bg = cfg
-    sched = vsched.Sched(seed=seed, policy=policy, script=script, p_switch=p_switch, max_steps=150000)
+    sched = vsched.Sched(seed=seed, policy=policy, script=script, p_switch=p_switch, max_steps=150000 if with_bg != "poller" else 400000)
     sched.record_census = census
     if with_bg == "poller":
         sched.spin_cost = 0.002          # poll_all() busy-waits while another thread holds the receive lock
